@@ -110,7 +110,10 @@ def check_table(ctx, pt, sts, shifted, tag, want, Qr_known=None):
             conds.append(h.close(Hh[k], ch, EQ))
             conds.append(h.close(Hc[k] - Hc[n - 1], cc, EQ))
             conds.append(h.close(Hn[k], Hc[k] - Hh[k], EQ))
-            conds.append(Hn[k] >= -EQ)
+            # non-negativity is stated for the shifted scale; on the real table it follows only when no contribution is negative (with a
+            # negative dT_cont the shifted recovery exceeds what the real curves allow and the imposed offset makes them cross)
+            if shifted or not any(bool(st["s"].dt_cont < 0) for st in sts):
+                conds.append(Hn[k] >= -EQ)
         ctx.require(h.conj(conds), f"C05 {tag}: composite enthalpies equal the exact heat content of the streams at every row; net = cold - hot >= 0")
         ctx.require(h.conj([h.close(Hh[0], totH, EQ), h.close(Hc[0] - Hc[n - 1], totC, EQ), h.close(Hh[n - 1], 0.0, EQ)]),
                     f"C05 {tag}: curves span exactly the total stream duties")
@@ -276,13 +279,16 @@ def cases_Q(tier, seed):
                     "streams": [{"ts": a, "tt": b, "dt": c} for a, b, c in tp]})
     out.append({"family": "Q", "scale": "both", "near_tie": "region",
                 "streams": [{"ts": 100, "tt": 100, "dt": 5, "latent": -1}, {"ts": 40, "tt": 120, "dt": 5}]})
+    # a NEGATIVE contribution is accepted by the library (no validation): the shifted curves then overlap more than the real ones
+    out.append({"family": "Q", "scale": "both", "near_tie": "region",
+                "streams": [{"ts": 200, "tt": 100, "dt": -10}, {"ts": 120, "tt": 220, "dt": 0}]})
     return out
 
 
 BOUNDS_T = ("family T: 1-2 streams (thorough: up to 3 with concrete dT_cont) with supply/target temperatures in [0,500] C and dT_cont in [0,20] K "
             "as z3 reals (hot/cold mix, nesting and coincidences decided by the solver; |Ts-Tt| >= 1 K, or isothermal = 0.01 K latent stream), "
             "heat-capacity flowrates concrete {1,2,3,5,7}; shifted and real tables separately, both together with concrete dT_cont")
-BOUNDS_Q = "family Q: duties in [1,1e4] kW as z3 reals on fixed temperature templates (coincident, nested, isothermal, 1e-5-close bounds), both tables"
+BOUNDS_Q = "family Q: duties in [1,1e4] kW as z3 reals on fixed temperature templates (coincident, nested, isothermal, 1e-5-close bounds, one negative dT_cont), both tables"
 ASSUME = ["floats modelled as exact reals", "round(T, 6) is the identity (inputs on the 1e-6 K lattice)",
           "family T: heat-capacity flowrates concrete; family Q: temperatures concrete (keeps every query linear)",
           "main claim: distinct breakpoints are >= 1e-4 K apart; the band 0 < gap < 1e-4 is the recorded region near_tie"]
